@@ -35,7 +35,6 @@ ASSUMPTIONS = ["libstdc++ 12 <bit>/<numeric>/<utility> and exact __int128 arithm
                "host is little-endian (ntoh/hton swap unconditionally in the source)"]
 TRUSTED = ["hand model Tetl/C14/Model.lean tied to the source by the correspondence run (R1) on every run",
            "spec Tetl/C14/Spec.lean validated against libstdc++/__int128 (R2) on every run"]
-THEOREMS = {}
 SEARCH_CAP = 400000
 
 UT = {"u8": 8, "u16": 16, "u32": 32, "u64": 64, "ull": 64}
@@ -330,7 +329,57 @@ def classify(case, k, row):
 
 
 def group_of(case):
-    return case.tag
+    return case.tag.split("/")[0]          # one replay per function
+
+
+def _scalar_lines(line):
+    """Split a list-argument line into one scalar line per element."""
+    toks = line.split(" ")
+    out = []
+    for key, skey in (("as=", "a="), ("bs=", "b=")):
+        for i, tk in enumerate(toks):
+            if tk.startswith(key):
+                for v in tk[len(key) + 1:-1].split(","):
+                    out.append(" ".join(toks[:i] + [skey + v] + toks[i + 1:]))
+                return out
+    return [line]
+
+
+def run(ctx, replay=None):
+    """Standard flow, then every replay whose case is a list line is reduced to the first single
+    evaluation that still fails (re-executed on all four sides)."""
+    import json
+    import os
+    import __main__ as chk
+    import lib
+    mod = __import__("props.c14", fromlist=["c14"])
+    rc = chk.standard(mod, ctx, replay)
+    if replay or not ctx.violations:
+        return rc
+    exe = os.path.join(lib.BUILD, "c14_harness")
+    for path in ctx.violations:
+        try:
+            rp = json.load(open(path))
+            if len(rp.get("cases", [])) != 1:
+                continue
+            singles = _scalar_lines(rp["cases"][0])
+            if len(singles) <= 1:
+                continue
+            cs = [Case(ln, "shrunk") for ln in singles]
+            rows = lib.run_batch(ctx, cs, exe, DRIVER, jobs=1)
+            for c, r in zip(cs, rows):
+                r = r[0]
+                if not lib.eq(r.impl, r.spec) or not lib.eq(r.impl, r.model):
+                    rp["unshrunk_case"] = rp["cases"]
+                    rp["cases"] = c.lines
+                    rp.update(r.as_dict())
+                    json.dump(rp, open(path, "w"), indent=1)
+                    lib.log("  minimal case for %s: %s  impl=%s model=%s spec=%s std=%s"
+                            % (os.path.basename(path), c.lines[0], r.impl, r.model, r.spec, r.std))
+                    break
+        except (OSError, ValueError, lib.MachineryError) as e:   # shrinking is best effort
+            lib.log("  (replay %s not shrunk: %s)" % (path, e))
+    return rc
 
 
 CLAIMED = True
@@ -346,8 +395,17 @@ LEVEL_NOTE = ("Trusted: Lean kernel + propext/Classical.choice/Quot.sound; the h
               "g++-12/ASan/UBSan; compiler builtins; libstdc++ as oracle for spec validation. Functions without a theorem yet "
               "are listed in evidence coverage.correspondence_only and are covered by the differential run only.")
 # functions modelled and compared on every run but without a Lean theorem yet
-CORRESPONDENCE_ONLY = ["popcount", "countl_zero", "countl_one", "countr_zero", "countr_one", "bit_width", "bit_ceil", "bit_floor",
-                       "has_single_bit", "rotl", "rotr", "byteswap", "set_bit", "reset_bit", "flip_bit", "test_bit",
-                       "add_sat", "div_sat", "saturate_cast", "midpoint", "gcd", "lcm", "abs", "idiv", "ipow", "ilog2",
-                       "cmp_equal", "cmp_not_equal", "cmp_less", "cmp_greater", "cmp_less_equal", "cmp_greater_equal",
-                       "in_range", "ntoh", "hton"]
+CORRESPONDENCE_ONLY = ["countl_one", "countr_zero", "countr_one", "has_single_bit", "byteswap", "byteswap_fallback",
+                       "set_bit", "reset_bit", "flip_bit", "test_bit", "ipow", "ipow<2>", "ntoh", "hton"]
+THEOREMS = {
+    "popcount": ["C14.Props.popcount_eq"], "popcount_fb": ["C14.Props.popcountFallback_eq"],
+    "countl_zero": ["C14.Props.countlZero_eq"], "bit_width": ["C14.Props.bitWidth_eq"],
+    "bit_floor": ["C14.Props.bitFloor_eq"], "bit_ceil": ["C14.Props.bitCeil_eq"],
+    "rotl": ["C14.Props.rotl_eq"], "rotr": ["C14.Props.rotr_eq"],
+    "add_sat": ["C14.Props.addSat_eq"], "add_sat_fb": ["C14.Props.addSatFallback_eq"],
+    "midpoint": ["C14.Props.midpoint_eq"], "div_sat": ["C14.Props.divSat_eq"], "idiv": ["C14.Props.idiv_eq"], "gcd": ["C14.Props.gcd_eq"], "lcm": ["C14.Props.lcm_eq"],
+    "abs": ["C14.Props.absT_eq"], "mabs": ["C14.Props.absM_eq"], "ilog2": ["C14.Props.ilog2_eq"],
+    "cmp": ["C14.Props.cmpEqual_eq", "C14.Props.cmpNotEqual_eq", "C14.Props.cmpLess_eq", "C14.Props.cmpGreater_eq",
+            "C14.Props.cmpLessEqual_eq", "C14.Props.cmpGreaterEqual_eq"],
+    "in_range": ["C14.Props.inRange_eq"], "saturate_cast": ["C14.Props.saturateCast_eq"],
+}
